@@ -463,3 +463,719 @@ Proof.
         -- rewrite len_cons. replace (o + (1 + len B') + len (close_bracket n))
              with (o + 1 + len B' + len (close_bracket n)) by lia. exact Hat'.
 Qed.
+
+Lemma is_nl_eq c : ((c =? 10) || (c =? 13)) = is_nl c.
+Proof. reflexivity. Qed.
+
+Lemma drop_first_nl_cons c l : c <> 10 -> drop_first_nl (c :: l) = c :: l.
+Proof.
+  intros H. unfold drop_first_nl. destruct c as [|p|p]; try reflexivity.
+  repeat (destruct p as [p|p|]; try reflexivity). congruence.
+Qed.
+
+Lemma scan_ml_body_run fuel n tail B st o :
+  is_bytes B = true -> noclose n B ->
+  at_ st (B ++ close_bracket n ++ tail) o ->
+  (length (B ++ close_bracket n ++ tail) < fuel)%nat ->
+  exists st', scan_ml_body fuel n st = Ok (drop_first_nl (nl_norm B)) st' /\
+              at_ st' tail (o + len B + len (close_bracket n)).
+Proof.
+  intros Hb Hnc Hat Hf. unfold scan_ml_body.
+  destruct (next st) as [ch st1] eqn:N. rewrite is_nl_eq.
+  destruct B as [|c B'].
+  - pose proof Hat as Hat0. simpl in Hat0. unfold close_bracket in Hat0. simpl in Hat0.
+    destruct (next_plain _ _ _ _ Hat0 ltac:(reflexivity) ltac:(reflexivity)) as (s1 & N1 & _).
+    rewrite N in N1. inversion N1; subst ch st1. cbn [is_nl Z.eqb Pos.eqb orb].
+    destruct (ml_run fuel n tail [] st [] o 93 s1 Hb Hnc Hat Hf N) as (st' & R & A).
+    exists st'. split; auto.
+  - destruct (is_bytes_cons _ _ Hb) as [Hc Hb'].
+    destruct (is_nl c) eqn:Hn.
+    + pose proof Hat as Hat0. rewrite <- app_comm_cons in Hat0.
+      destruct (pairs_with c (B' ++ close_bracket n ++ tail)) eqn:Hp.
+      * destruct B' as [|d B''].
+        { simpl in Hp. unfold close_bracket in Hp. simpl in Hp. discriminate. }
+        simpl in Hp. apply andb_true_iff in Hp. destruct Hp as [Hd1 Hd2].
+        rewrite <- app_comm_cons in Hat0.
+        destruct (next_nl2 _ _ _ _ _ Hat0 Hn Hd1 ltac:(lia)) as (s1 & N1 & Hat1).
+        rewrite N in N1. inversion N1; subst ch st1. cbn [is_nl Z.eqb Pos.eqb orb].
+        destruct (next s1) as [c2 s2] eqn:N2.
+        destruct (is_bytes_cons _ _ Hb') as [_ Hb''].
+        destruct (ml_run fuel n tail B'' s1 [] (o + 2) c2 s2 Hb''
+                    (noclose_tail _ _ _ (noclose_tail _ _ _ Hnc)) Hat1 ltac:(lens) N2) as (st' & R & A).
+        exists st'. rewrite R. split.
+        -- f_equal. simpl. rewrite Hn, Hd1. replace (d =? c) with false by lia. reflexivity.
+        -- rewrite !len_cons. replace (o + (1 + (1 + len B'')) + len (close_bracket n))
+             with (o + 2 + len B'' + len (close_bracket n)) by lia. exact A.
+      * destruct (next_nl1 _ _ _ _ Hat0 Hn Hp) as (s1 & N1 & Hat1).
+        rewrite N in N1. inversion N1; subst ch st1. cbn [is_nl Z.eqb Pos.eqb orb].
+        destruct (next s1) as [c2 s2] eqn:N2.
+        destruct (ml_run fuel n tail B' s1 [] (o + 1) c2 s2 Hb' (noclose_tail _ _ _ Hnc) Hat1 ltac:(lens) N2)
+          as (st' & R & A).
+        exists st'. rewrite R. split.
+        -- f_equal. simpl nl_norm. rewrite Hn. destruct B' as [|d B3]; [reflexivity|].
+           simpl in Hp. rewrite Hp. reflexivity.
+        -- rewrite len_cons. replace (o + (1 + len B') + len (close_bracket n))
+             with (o + 1 + len B' + len (close_bracket n)) by lia. exact A.
+    + pose proof Hat as Hat0. rewrite <- app_comm_cons in Hat0.
+      destruct (next_plain _ _ _ _ Hat0 Hn Hc) as (s1 & N1 & _).
+      rewrite N in N1. inversion N1; subst ch st1. rewrite Hn.
+      destruct (ml_run fuel n tail (c :: B') st [] o c s1 Hb Hnc Hat Hf N) as (st' & R & A).
+      exists st'. rewrite R. split; auto. f_equal. cbn [app].
+      rewrite nl_norm_plain by auto. symmetry. apply drop_first_nl_cons. intro; subst; discriminate.
+Qed.
+
+Definition open_tail (n : nat) : bytes := repeat 61 n ++ [91].   (* open_bracket without its first "[" *)
+
+Lemma len_open_tail n : len (open_tail n) = Z.of_nat n + 1.
+Proof. unfold open_tail. rewrite len_app, len_repeat, len_cons, len_nil. lia. Qed.
+
+(* from the state after the first "[" of a long bracket *)
+Lemma long_open_run fuel n R st1 o c st2 :
+  at_ st1 (open_tail n ++ R) o ->
+  (length (open_tail n ++ R) < fuel)%nat ->
+  next st1 = (c, st2) ->
+  exists stB, at_ stB R (o + len (open_tail n)) /\ count_sep fuel c st2 O = Ok (n, 91) stB.
+Proof.
+  intros Hat Hf N. unfold open_tail in *. rewrite <- app_assoc in Hat. simpl in Hat.
+  destruct (count_sep_run fuel n st1 (91 :: R) o O c st2 Hat ltac:(simpl; lia)
+              ltac:(rewrite <- app_assoc in Hf; exact Hf) N) as (stZ & ch2 & stB & A & NZ & C).
+  destruct (next_plain _ _ _ _ A ltac:(reflexivity) ltac:(reflexivity)) as (s & N1 & Hat1 & _).
+  rewrite NZ in N1. inversion N1; subst ch2 stB.
+  exists s. split; [|exact C].
+  rewrite len_app, len_repeat, len_cons, len_nil.
+  replace (o + (Z.of_nat n + (1 + 0))) with (o + Z.of_nat n + 1) by lia. exact Hat1.
+Qed.
+
+Lemma scan_multiline_run fuel n tail B st1 o c st2 :
+  is_bytes B = true -> noclose n B ->
+  at_ st1 (open_tail n ++ B ++ close_bracket n ++ tail) o ->
+  (length (open_tail n ++ B ++ close_bracket n ++ tail) < fuel)%nat ->
+  next st1 = (c, st2) ->
+  exists st', scan_multiline fuel c st2 = Ok (drop_first_nl (nl_norm B)) st' /\
+              at_ st' tail (o + len (open_tail n) + len B + len (close_bracket n)).
+Proof.
+  intros Hb Hnc Hat Hf N. unfold scan_multiline.
+  destruct (long_open_run fuel n _ st1 o c st2 Hat Hf N) as (stB & A & C).
+  rewrite C. cbn [bind]. cbn [Z.eqb Pos.eqb negb].
+  apply scan_ml_body_run; auto. rewrite app_length in Hf. lia.
+Qed.
+
+(* ---------- comments ---------- *)
+
+Definition no_nl (t : bytes) : bool := forallb (fun c => negb (is_nl c)) t.
+
+(* where a line comment's text t, ended by the line-end byte c, leaves the scanner: just after c,
+   or after c and its complementary second byte *)
+Definition after_nl (st' : state) (c : Z) (R : bytes) (o : Z) : Prop :=
+  (pairs_with c R = false /\ at_ st' R (o + 1)) \/
+  (exists d R', R = d :: R' /\ is_nl d = true /\ d <> c /\ at_ st' R' (o + 2)).
+
+Lemma next_after_nl st c R o :
+  at_ st (c :: R) o -> is_nl c = true -> exists st', next st = (10, st') /\ after_nl st' c R o.
+Proof.
+  intros Hat Hn. destruct (pairs_with c R) eqn:Hp.
+  - destruct R as [|d R']; [discriminate|]. simpl in Hp. apply andb_true_iff in Hp. destruct Hp as [H1 H2].
+    destruct (next_nl2 _ _ _ _ _ Hat Hn H1 ltac:(lia)) as (st' & N & A).
+    exists st'. split; auto. right. exists d, R'. split; [reflexivity|]. split; [exact H1|]. split; [lia|exact A].
+  - destruct (next_nl1 _ _ _ _ Hat Hn Hp) as (st' & N & A).
+    exists st'. split; auto. left. auto.
+Qed.
+
+Lemma comment_line_run fuel : forall t st c R o ch st1,
+  no_nl t = true -> is_bytes t = true -> is_nl c = true ->
+  at_ st (t ++ c :: R) o -> (length (t ++ c :: R) < fuel)%nat ->
+  next st = (ch, st1) ->
+  exists st', comment_line_loop fuel ch st1 = Ok tt st' /\ after_nl st' c R (o + len t).
+Proof.
+  induction fuel as [|f IH]; intros t st c R o ch st1 Ht Hb Hn Hat Hf N; [lia|].
+  destruct t as [|x t'].
+  - simpl in Hat. destruct (next_after_nl _ _ _ _ Hat Hn) as (st' & N' & A).
+    rewrite N in N'. inversion N'; subst ch st1.
+    exists st'. cbn [comment_line_loop]. cbn [Z.eqb Pos.eqb orb]. split; auto.
+    rewrite len_nil, Z.add_0_r. exact A.
+  - simpl in Ht. apply andb_true_iff in Ht. destruct Ht as [Hx Ht'].
+    destruct (is_bytes_cons _ _ Hb) as [Hxb Hb'].
+    rewrite <- app_comm_cons in Hat.
+    destruct (next_plain _ _ _ _ Hat ltac:(destruct (is_nl x); auto; discriminate) Hxb) as (s1 & N1 & Hat1 & _).
+    rewrite N in N1. inversion N1; subst ch st1.
+    cbn [comment_line_loop]. rewrite is_nl_eq.
+    replace (is_nl x) with false by (destruct (is_nl x); auto; discriminate).
+    replace (x <? 0) with false by (unfold byteb in Hxb; lia). cbn [orb].
+    destruct (next s1) as [c1 s2] eqn:N2.
+    destruct (IH t' s1 c R (o + 1) c1 s2 Ht' Hb' Hn Hat1 ltac:(simpl in Hf; lia) N2) as (st' & E & A).
+    exists st'. split; auto. rewrite len_cons. replace (o + (1 + len t')) with (o + 1 + len t') by lia. exact A.
+Qed.
+
+Lemma opens_eq_run k t2 : opens_long_bracket (91 :: repeat 61 k ++ t2) = opens_long_bracket (91 :: t2).
+Proof. simpl. induction k; simpl; auto. Qed.
+
+(* "--" text line-end: st is the state after "--" *)
+Lemma line_comment_run fuel t st c R o ch :
+  no_nl t = true -> is_bytes t = true -> opens_long_bracket t = false -> is_nl c = true ->
+  at_ st (t ++ c :: R) o -> (S (length (t ++ c :: R)) < fuel)%nat ->
+  (ch =? 10) || (ch =? 13) || (ch <? 0) = false ->
+  exists st', skip_comments fuel ch st = Ok tt st' /\ after_nl st' c R (o + len t).
+Proof.
+  intros Ht Hb Ho Hn Hat Hf Hch. unfold skip_comments.
+  assert (LINE : forall ch0, (ch0 =? 10) || (ch0 =? 13) || (ch0 <? 0) = false ->
+            exists st', comment_line_loop fuel ch0 st = Ok tt st' /\ after_nl st' c R (o + len t)).
+  { intros ch0 H0. destruct fuel as [|f]; [lia|]. cbn [comment_line_loop]. rewrite H0.
+    destruct (next st) as [c1 s1] eqn:N.
+    apply (comment_line_run f t st c R o c1 s1); auto. lia. }
+  destruct (peek st =? 91) eqn:Hp; [|apply LINE; auto].
+  destruct t as [|x t1]; [simpl in Hat; rewrite (peek_at _ _ _ _ Hat) in Hp; unfold is_nl in Hn; lia|].
+  rewrite <- app_comm_cons in Hat. rewrite (peek_at _ _ _ _ Hat) in Hp. assert (x = 91) by lia. subst x.
+  destruct (next st) as [ch1 st1] eqn:N.
+  destruct (next_plain _ _ _ _ Hat ltac:(reflexivity) ltac:(reflexivity)) as (s1 & N1 & Hat1 & _).
+  rewrite N in N1. inversion N1; subst ch1 st1. clear N1.
+  simpl in Ht. destruct (is_bytes_cons _ _ Hb) as [_ Hb1].
+  destruct ((peek s1 =? 91) || (peek s1 =? 61)) eqn:Hp1.
+  - destruct (eq_run t1) as (k & t2 & E & Ht2).
+    assert (HY : head_or_eof (t2 ++ c :: R) <> 61).
+    { destruct t2; simpl in *; auto. unfold is_nl in Hn. lia. }
+    destruct (next s1) as [c0 s2] eqn:N0.
+    rewrite E, <- app_assoc in Hat1.
+    destruct (count_sep_run fuel k s1 _ (o + 1) O c0 s2 Hat1 HY
+                ltac:(rewrite E in Hf; simpl in Hf; rewrite <- app_assoc in Hf; lia) N0)
+      as (stZ & ch2 & st3 & A & NZ & C).
+    rewrite C.
+    assert (Ht2n : no_nl t2 = true).
+    { rewrite E in Ht. unfold no_nl in *. rewrite forallb_app in Ht. apply andb_true_iff in Ht. tauto. }
+    assert (Hb2 : is_bytes t2 = true) by (rewrite E in Hb1; eapply is_bytes_app_r; eauto).
+    destruct (ch2 =? 91) eqn:H91.
+    + exfalso. assert (ch2 = 91) by lia. subst ch2.
+      assert (HH : head_or_eof (t2 ++ c :: R) = 91).
+      { eapply next_fst_head; eauto; [rewrite NZ; reflexivity|lia|lia]. }
+      rewrite E, opens_eq_run in Ho. destruct t2 as [|y t3]; simpl in HH.
+      * unfold is_nl in Hn. lia.
+      * subst y. simpl in Ho. discriminate.
+    + destruct (comment_line_run fuel t2 stZ c R (o + 1 + Z.of_nat k) ch2 st3 Ht2n Hb2 Hn A
+                  ltac:(rewrite E in Hf; simpl in Hf; rewrite <- app_assoc, app_length, repeat_length in Hf; lia) NZ)
+        as (st' & E' & A').
+      exists st'. split; auto. rewrite E, len_cons, len_app, len_repeat.
+      replace (o + (1 + (Z.of_nat k + len t2))) with (o + 1 + Z.of_nat k + len t2) by lia. exact A'.
+  - assert (Ht' : no_nl (91 :: t1) = true) by (simpl; exact Ht).
+    apply (comment_line_run fuel (91 :: t1) st c R o 91 s1 Ht' Hb Hn Hat ltac:(simpl; simpl in Hf; lia) N).
+Qed.
+
+(* "--" "[" "="* "[" body "]" "="* "]": st is the state after "--" *)
+Lemma block_comment_run fuel n B W st o ch :
+  is_bytes B = true -> noclose n B ->
+  at_ st (open_bracket n ++ B ++ close_bracket n ++ W) o ->
+  (S (length (open_bracket n ++ B ++ close_bracket n ++ W)) < fuel)%nat ->
+  exists st', skip_comments fuel ch st = Ok tt st' /\
+              at_ st' W (o + len (open_bracket n) + len B + len (close_bracket n)).
+Proof.
+  intros Hb Hnc Hat Hf. unfold skip_comments.
+  assert (EO : open_bracket n = 91 :: open_tail n) by reflexivity.
+  rewrite EO in Hat. rewrite <- app_comm_cons in Hat.
+  rewrite (peek_at _ _ _ _ Hat). cbn [Z.eqb Pos.eqb].
+  destruct (next st) as [ch1 st1] eqn:N.
+  destruct (next_plain _ _ _ _ Hat ltac:(reflexivity) ltac:(reflexivity)) as (s1 & N1 & Hat1 & _).
+  rewrite N in N1. inversion N1; subst ch1 st1. clear N1.
+  assert (Hp1 : (peek s1 =? 91) || (peek s1 =? 61) = true).
+  { rewrite (peek_at_head _ _ _ Hat1). unfold open_tail. destruct n; simpl; reflexivity. }
+  rewrite Hp1.
+  destruct (next s1) as [c0 s2] eqn:N0.
+  destruct (long_open_run fuel n _ s1 (o + 1) c0 s2 Hat1 ltac:(rewrite EO in Hf; unfold open_tail in *; lens) N0)
+    as (stB & A & C).
+  rewrite C. cbn [Z.eqb Pos.eqb].
+  destruct (scan_ml_body_run fuel n W B stB _ Hb Hnc A
+              ltac:(rewrite EO in Hf; unfold open_tail in *; lens)) as (st' & E & A').
+  rewrite E. exists st'. split; auto.
+  rewrite EO, len_cons. replace (o + (1 + len (open_tail n)) + len B + len (close_bracket n))
+    with (o + 1 + len (open_tail n) + len B + len (close_bracket n)) by lia. exact A'.
+Qed.
+
+Ltac at_exact H :=
+  match goal with |- at_ _ _ ?a => match type of H with at_ _ _ ?b => replace a with b; [exact H|] end end.
+Ltac lens2 := repeat (rewrite app_length in * || simpl length in * ); lia.
+Ltac len_norm := repeat (rewrite len_app || rewrite len_cons || rewrite len_nil || rewrite len_repeat).
+
+(* ---------- separators at byte level ---------- *)
+
+Inductive sepb : bytes -> Prop :=
+| sepb_nil : sepb []
+| sepb_blank c w : blankb c = true -> sepb w -> sepb (c :: w)
+| sepb_line t c w :
+    no_nl t = true -> is_bytes t = true -> opens_long_bracket t = false -> is_nl c = true ->
+    sepb w -> sepb (45 :: 45 :: t ++ c :: w)
+| sepb_block n B w :
+    is_bytes B = true -> noclose n B -> sepb w ->
+    sepb (45 :: 45 :: open_bracket n ++ B ++ close_bracket n ++ w).
+
+Lemma sepb_app a b : sepb a -> sepb b -> sepb (a ++ b).
+Proof.
+  induction 1; intros Hb; cbn [app]; auto.
+  - apply sepb_blank; auto.
+  - rewrite <- app_assoc. cbn [app]. apply sepb_line; auto.
+  - rewrite <- !app_assoc. apply sepb_block; auto.
+Qed.
+
+Lemma sepb_split S : sepb S ->
+  exists w S', S = w ++ S' /\ forallb blankb w = true /\ sepb S' /\
+               (S' = [] \/ exists r, S' = 45 :: 45 :: r).
+Proof.
+  induction 1.
+  - exists [], []. simpl. repeat split; auto. constructor.
+  - destruct IHsepb as (w' & S' & E & Hw & HS & HH).
+    exists (c :: w'), S'. cbn [app forallb]. rewrite E, H. repeat split; auto.
+  - exists [], (45 :: 45 :: t ++ c :: w). cbn [app forallb]. repeat split; auto.
+    + apply sepb_line; auto.
+    + right. eauto.
+  - exists [], (45 :: 45 :: open_bracket n ++ B ++ close_bracket n ++ w). cbn [app forallb]. repeat split; auto.
+    + apply sepb_block; auto.
+    + right. eauto.
+Qed.
+
+Lemma len_nl_bytes_blank k : forallb blankb (nl_bytes k) = true.
+Proof. destruct k; reflexivity. Qed.
+
+Lemma blank_run_sepb w : forallb blankb w = true -> sepb w.
+Proof.
+  induction w; simpl; intros H; [constructor|]. apply andb_true_iff in H. destruct H. apply sepb_blank; auto.
+Qed.
+
+Lemma sep_bytes_sepb s : forallb sepitem_ok s = true -> sepb (sep_bytes s).
+Proof.
+  induction s as [|i s IH]; simpl; intros H; [constructor|].
+  apply andb_true_iff in H. destruct H as [Hi Hs]. specialize (IH Hs).
+  destruct i as [c|k|text k|lvl body]; cbn [sepitem_bytes sepitem_ok app] in *.
+  - apply sepb_blank; auto. unfold blankb. rewrite Hi. reflexivity.
+  - apply sepb_app; auto. apply blank_run_sepb. apply len_nl_bytes_blank.
+  - apply andb_true_iff in Hi. destruct Hi as [Hi Ho]. apply andb_true_iff in Hi. destruct Hi as [Hb Hn].
+    rewrite <- app_assoc.
+    assert (exists c r, nl_bytes k = c :: r /\ is_nl c = true /\ forallb blankb r = true)
+      as (c & r & E & Hc & Hr) by (destruct k; simpl; eauto 6).
+    rewrite E. cbn [app]. apply sepb_line; auto.
+    + destruct (opens_long_bracket text); auto; discriminate.
+    + apply sepb_app; auto. apply blank_run_sepb; auto.
+  - apply andb_true_iff in Hi. destruct Hi as [Hb Hok].
+    rewrite <- !app_assoc. apply sepb_block; auto.
+    unfold noclose. unfold ml_body_ok in Hok. destruct (occurs_before _ _ _); auto; discriminate.
+Qed.
+
+Lemma sepb_comment_inv r : sepb (45 :: 45 :: r) ->
+  (exists t c w2, r = t ++ c :: w2 /\ no_nl t = true /\ is_bytes t = true /\
+                  opens_long_bracket t = false /\ is_nl c = true /\ sepb w2) \/
+  (exists n B w2, r = open_bracket n ++ B ++ close_bracket n ++ w2 /\
+                  is_bytes B = true /\ noclose n B /\ sepb w2).
+Proof.
+  intros H. inversion H as [|c0 w0 Hc0|t c w2 Ht Hb Ho Hn Hw2 Heq|n B w2 Hb Hnc Hw2 Heq]; subst.
+  - discriminate.
+  - left. exists t, c, w2. repeat split; auto.
+  - right. exists n, B, w2. repeat split; auto.
+Qed.
+
+Lemma sepb_nl_inv d w : sepb (d :: w) -> is_nl d = true -> sepb w.
+Proof. intros H Hd. inversion H; subst; auto; unfold is_nl in Hd; lia. Qed.
+
+Lemma scan_tok_comment fuel redo st1 :
+  peek st1 = 45 ->
+  scan_tok fuel redo 45 st1 =
+  (let '(c, st2) := next st1 in lift_tok (skip_comments fuel c st2) (fun _ st3 => redo st3)).
+Proof. intros H. unfold scan_tok. cbv zeta. rewrite H. reflexivity. Qed.
+
+Lemma Xstart_app_nonblank c r X : blankb c = false -> byteb c = true -> Xstart ((c :: r) ++ X).
+Proof. simpl. auto. Qed.
+
+Lemma after_nl_sepb st' c w X o :
+  after_nl st' c (w ++ X) o -> sepb w -> Xstart X ->
+  exists w', sepb w' /\ (length w' <= length w)%nat /\
+             at_ st' (w' ++ X) (o + 1 + (len w - len w')).
+Proof.
+  intros [[Hp A]|(d & R' & E & Hd & Hdc & A)] Hw HX.
+  - exists w. split; auto. split; auto. replace (o + 1 + (len w - len w)) with (o + 1) by lia. exact A.
+  - destruct w as [|d' w'].
+    + simpl in E. subst X. destruct HX as [Hb _]. unfold blankb in Hb. rewrite Hd in Hb.
+      rewrite orb_true_r in Hb. discriminate.
+    + simpl in E. inversion E; subst d' R'.
+      assert (Hw' : sepb w') by (eapply sepb_nl_inv; eauto).
+      exists w'. split; auto. split; [simpl; lia|].
+      rewrite len_cons. replace (o + 1 + (1 + len w' - len w')) with (o + 2) by lia. exact A.
+Qed.
+
+(* Scan over a separator S followed by X: the switch is reached exactly at X *)
+Lemma scan_sep (R : scanres -> Prop) X : Xstart X ->
+  forall fuel Sp st o,
+  sepb Sp -> at_ st (Sp ++ X) o -> (length (Sp ++ X) < fuel)%nat ->
+  (forall fuel' redo stX, (length X < fuel')%nat -> at_ stX X (o + len Sp) ->
+     R (let '(ch, st1) := next stX in scan_tok fuel' redo ch st1)) ->
+  R (scan fuel st).
+Proof.
+  intros HX. induction fuel as [|f IH]; intros Sp st o HS Hat Hf HR; [lia|].
+  cbn [scan]. rewrite scan_body_skip2.
+  destruct (sepb_split Sp HS) as (w & S' & E & Hw & HS' & HH).
+  rewrite E, <- app_assoc in Hat.
+  destruct HH as [->|(r & ->)].
+  - (* blank space only *)
+    simpl in Hat. rewrite app_nil_r in E. subst w.
+    destruct (skip2_run (S f) Sp st X o Hw HX Hat Hf) as (stX & A & Esk).
+    rewrite Esk. specialize (HR (S f) (scan f) stX ltac:(rewrite app_length in Hf; lia) A).
+    destruct (next stX) as [ch st1]. exact HR.
+  - (* a comment *)
+    assert (HY : Xstart ((45 :: 45 :: r) ++ X)) by (apply Xstart_app_nonblank; reflexivity).
+    destruct (skip2_run (S f) w st _ o Hw HY Hat ltac:(rewrite E, <- app_assoc in Hf; exact Hf)) as (stY & A & Esk).
+    rewrite Esk. simpl app in A.
+    destruct (next_plain _ _ _ _ A ltac:(reflexivity) ltac:(reflexivity)) as (s1 & N1 & A1 & _).
+    rewrite N1. cbn [lift_tok].
+    rewrite scan_tok_comment by (eapply peek_at; eauto).
+    destruct (next_plain _ _ _ _ A1 ltac:(reflexivity) ltac:(reflexivity)) as (s2 & N2 & A2 & _).
+    rewrite N2.
+    assert (Hlen : (S (S (length (r ++ X))) + length w < S f)%nat).
+    { rewrite E in Hf. repeat (rewrite app_length in * || simpl length in * ). lia. }
+    destruct (sepb_comment_inv _ HS') as [(t & c & w2 & -> & Ht & Hb & Ho & Hn & Hw2)|(n & B & w2 & -> & Hb & Hnc & Hw2)].
+    + (* line comment *)
+      rewrite <- app_assoc in A2. rewrite <- app_comm_cons in A2.
+      destruct (line_comment_run (S f) t s2 c (w2 ++ X) _ 45 Ht Hb Ho Hn A2
+                  ltac:(lens2) ltac:(reflexivity))
+        as (st' & Esc & Aft).
+      rewrite Esc. cbn [lift_tok].
+      destruct (after_nl_sepb _ _ _ _ _ Aft Hw2 HX) as (w' & Hw' & Hlw & A').
+      apply (IH w' st' _ Hw' A').
+      * lens2.
+      * intros fuel' redo stX Hf' AX. apply HR; auto.
+        rewrite E. at_exact AX. len_norm. lia.
+    + (* block comment *)
+      rewrite <- !app_assoc in A2.
+      destruct (block_comment_run (S f) n B (w2 ++ X) s2 _ 45 Hb Hnc A2
+                  ltac:(lens2)) as (st' & Esc & A').
+      rewrite Esc. cbn [lift_tok].
+      apply (IH w2 st' _ Hw2 A').
+      * lens2.
+      * intros fuel' redo stX Hf' AX. apply HR; auto.
+        rewrite E. at_exact AX. len_norm. lia.
+Qed.
+
+(* ---------- tokens ---------- *)
+
+(* scanning lexeme l followed by `tail` from a state positioned at its first byte delivers its
+   token and stops exactly before `tail` *)
+Definition tok_ok (l : lexeme) (tail : bytes) : Prop :=
+  forall fuel redo stX o,
+    (length (lexeme_bytes l ++ tail) < fuel)%nat -> at_ stX (lexeme_bytes l ++ tail) o ->
+    exists ch st1 st', next stX = (ch, st1) /\
+      scan_tok fuel redo ch st1 = STok (mkTok (lexeme_type l) (lexeme_text l) (line st1) o) st' /\
+      at_ st' tail (o + len (lexeme_bytes l)).
+
+Lemma take_while_run fuel p : forall s st q o,
+  (forall c, p c = true -> is_nl c = false /\ byteb c = true) ->
+  forallb p s = true -> p (head_or_eof q) = false ->
+  at_ st (s ++ q) o -> (length (s ++ q) < fuel)%nat ->
+  exists st', take_while fuel p st = Ok s st' /\ at_ st' q (o + len s).
+Proof.
+  induction fuel as [|f IH]; intros s st q o Hp Hs Hq Hat Hf; [lia|].
+  cbn [take_while]. destruct s as [|c s'].
+  - simpl in Hat. rewrite (peek_at_head _ _ _ Hat), Hq. exists st. split; auto.
+    rewrite len_nil, Z.add_0_r. exact Hat.
+  - simpl in Hs. apply andb_true_iff in Hs. destruct Hs as [Hc Hs'].
+    rewrite <- app_comm_cons in Hat. rewrite (peek_at _ _ _ _ Hat), Hc.
+    destruct (Hp c Hc) as [Hn Hb].
+    destruct (next_plain _ _ _ _ Hat Hn Hb) as (s1 & N & A & _). rewrite N.
+    destruct (IH s' s1 q (o + 1) Hp Hs' Hq A ltac:(simpl in Hf; lia)) as (st' & E & A').
+    rewrite E. cbn [bind]. exists st'. rewrite wc_byte by auto. split; auto.
+    at_exact A'. len_norm. lia.
+Qed.
+
+Lemma ident_class c : is_ident c 1 = true -> is_nl c = false /\ byteb c = true.
+Proof. unfold is_ident, is_dec, is_nl, byteb. lia. Qed.
+
+Lemma ident0_class c : is_ident c 0 = true -> is_nl c = false /\ byteb c = true /\ is_ident c 1 = true.
+Proof. unfold is_ident, is_dec, is_nl, byteb. lia. Qed.
+
+Lemma name_tok_ok s tail :
+  name_ok s = true -> is_alnum_ (head_or_eof tail) = false -> tok_ok (LxName s) tail.
+Proof.
+  intros Hn Hm fuel redo stX o Hf Hat. cbn [lexeme_bytes] in *.
+  destruct s as [|c s']; [discriminate|]. simpl in Hn. apply andb_true_iff in Hn. destruct Hn as [Hc Hs].
+  destruct (ident0_class c Hc) as (Hnl & Hb & _).
+  rewrite <- app_comm_cons in Hat.
+  destruct (next_plain _ _ _ _ Hat Hnl Hb) as (s1 & N & A & _).
+  exists c, s1.
+  destruct (take_while_run fuel (fun c => is_ident c 1) s' s1 tail (o + 1) ident_class Hs Hm A
+              ltac:(simpl in Hf; lia)) as (st' & E & A').
+  exists st'. split; auto. split.
+  - unfold scan_tok. cbv zeta. rewrite Hc. unfold scan_ident. rewrite E. cbn [bind lift_tok].
+    rewrite wc_byte by auto. cbn [lexeme_type lexeme_text].
+    assert (Eo : off s1 - 1 = o) by (destruct A as [_ A2]; lia). rewrite Eo.
+    destruct (lookup_word reserved_words (c :: s')); reflexivity.
+  - at_exact A'. len_norm. lia.
+Qed.
+
+(* ---------- short strings ---------- *)
+
+Lemma scan_escape_letter st1 c v st2 :
+  esc_value c = Some v -> next st1 = (c, st2) -> scan_escape st1 = ([v], st2).
+Proof.
+  unfold scan_escape, esc_value. intros H N. rewrite N.
+  repeat (match goal with
+          | H : (if ?c =? ?k then _ else _) = Some _ |- _ =>
+            destruct (c =? k) eqn:?; [inversion H; subst; reflexivity|]
+          end).
+  discriminate.
+Qed.
+
+Lemma esc_value_class c v : esc_value c = Some v -> is_nl c = false /\ byteb c = true.
+Proof.
+  unfold esc_value, is_nl, byteb.
+  repeat (match goal with
+          | |- (if ?c =? ?k then _ else _) = Some _ -> _ =>
+            destruct (c =? k) eqn:?; [intros _; lia|]
+          end).
+  discriminate.
+Qed.
+
+Lemma next_nl_bytes st k R o :
+  at_ st (nl_bytes k ++ R) o -> is_nl (head_or_eof R) = false ->
+  exists st', next st = (10, st') /\ at_ st' R (o + len (nl_bytes k)).
+Proof.
+  intros Hat HR.
+  assert (Hp : forall c, pairs_with c R = false).
+  { intros c. destruct R; simpl in *; auto. rewrite HR. reflexivity. }
+  destruct k; simpl in Hat.
+  - destruct (next_nl1 _ _ _ _ Hat ltac:(reflexivity) (Hp _)) as (st' & N & A). exists st'. split; auto.
+  - destruct (next_nl1 _ _ _ _ Hat ltac:(reflexivity) (Hp _)) as (st' & N & A). exists st'. split; auto.
+  - destruct (next_nl2 _ _ _ _ _ Hat ltac:(reflexivity) ltac:(reflexivity) ltac:(lia)) as (st' & N & A).
+    exists st'. split; auto.
+  - destruct (next_nl2 _ _ _ _ _ Hat ltac:(reflexivity) ltac:(reflexivity) ltac:(lia)) as (st' & N & A).
+    exists st'. split; auto.
+Qed.
+
+Lemma scan_escape_dec st1 d1 d2 d3 R o :
+  is_digit_val d1 = true -> is_digit_val d2 = true -> is_digit_val d3 = true ->
+  (d1 * 10 + d2) * 10 + d3 <= 255 ->
+  at_ st1 (48 + d1 :: 48 + d2 :: 48 + d3 :: R) o ->
+  exists st4, scan_escape st1 = ([(d1 * 10 + d2) * 10 + d3], st4) /\ at_ st4 R (o + 3).
+Proof.
+  unfold is_digit_val. intros H1 H2 H3 Hv Hat.
+  destruct (next_plain _ _ _ _ Hat ltac:(unfold is_nl; lia) ltac:(unfold byteb; lia)) as (s2 & N1 & A2 & _).
+  destruct (next_plain _ _ _ _ A2 ltac:(unfold is_nl; lia) ltac:(unfold byteb; lia)) as (s3 & N2 & A3 & _).
+  destruct (next_plain _ _ _ _ A3 ltac:(unfold is_nl; lia) ltac:(unfold byteb; lia)) as (s4 & N3 & A4 & _).
+  exists s4. split; [|at_exact A4; lia].
+  unfold scan_escape. rewrite N1.
+  repeat match goal with
+         | |- context [48 + d1 =? ?k] => replace (48 + d1 =? k) with false by lia
+         end.
+  replace (is_dec (48 + d1)) with true by (unfold is_dec; lia).
+  rewrite (peek_at _ _ _ _ A2). replace (is_dec (48 + d2)) with true by (unfold is_dec; lia).
+  rewrite N2. rewrite (peek_at _ _ _ _ A3). replace (is_dec (48 + d3)) with true by (unfold is_dec; lia).
+  rewrite N3. f_equal. f_equal. unfold wc.
+  replace (((48 + d1 - 48) * 10 + (48 + d2 - 48)) * 10 + (48 + d3 - 48)) with ((d1 * 10 + d2) * 10 + d3) by lia.
+  apply Z.mod_small. lia.
+Qed.
+
+Lemma sitem_head_not_nl q i r : sitem_ok q i = true -> is_nl (head_or_eof (sitem_bytes i ++ r)) = false.
+Proof.
+  destruct i; simpl; auto. intros H. apply andb_true_iff in H. destruct H as [_ H].
+  destruct (is_nl c); auto.
+Qed.
+
+Lemma items_head_not_nl q items tail :
+  q = 34 \/ q = 39 -> forallb (sitem_ok q) items = true ->
+  is_nl (head_or_eof (flat_map sitem_bytes items ++ q :: tail)) = false.
+Proof.
+  intros Hq H. destruct items as [|i r]; simpl in *.
+  - destruct Hq; subst; reflexivity.
+  - apply andb_true_iff in H. destruct H as [Hi _]. rewrite <- app_assoc.
+    eapply sitem_head_not_nl; eauto.
+Qed.
+
+Lemma string_run fuel q tail : q = 34 \/ q = 39 -> forall items st acc o ch st1,
+  forallb (sitem_ok q) items = true ->
+  at_ st (flat_map sitem_bytes items ++ q :: tail) o ->
+  (length (flat_map sitem_bytes items ++ q :: tail) < fuel)%nat ->
+  next st = (ch, st1) ->
+  exists st', scan_string_loop fuel q ch st1 acc = Ok (acc ++ map sitem_value items) st' /\
+              at_ st' tail (o + len (flat_map sitem_bytes items) + 1).
+Proof.
+  intros Hq. induction fuel as [|f IH]; intros items st acc o ch st1 Hok Hat Hf N; [lia|].
+  assert (Hqb : is_nl q = false /\ byteb q = true /\ (q =? 92) = false /\ (q <? 0) = false)
+    by (destruct Hq; subst; repeat split; reflexivity).
+  destruct Hqb as (Hqn & Hqb & Hq92 & Hq0).
+  destruct items as [|i items'].
+  - simpl in Hat. destruct (next_plain _ _ _ _ Hat Hqn Hqb) as (s1 & N1 & A1 & _).
+    rewrite N in N1. inversion N1; subst ch st1.
+    cbn [scan_string_loop]. rewrite Z.eqb_refl. exists s1. rewrite app_nil_r. split; auto.
+    at_exact A1. simpl. len_norm. lia.
+  - cbn [forallb] in Hok. apply andb_true_iff in Hok. destruct Hok as [Hi Hok'].
+    cbn [flat_map] in Hat, Hf. rewrite <- app_assoc in Hat, Hf.
+    pose proof (items_head_not_nl q items' tail Hq Hok') as Hhd.
+    (* after the item: one more Next, then the induction hypothesis *)
+    assert (CONT : forall s2 o2 acc2,
+              at_ s2 (flat_map sitem_bytes items' ++ q :: tail) o2 ->
+              (length (flat_map sitem_bytes items' ++ q :: tail) < f)%nat ->
+              exists st', (let '(ch1, st2) := next s2 in scan_string_loop f q ch1 st2 acc2)
+                          = Ok (acc2 ++ map sitem_value items') st' /\
+                          at_ st' tail (o2 + len (flat_map sitem_bytes items') + 1)).
+    { intros s2 o2 acc2 A2 Hf2. destruct (next s2) as [ch1 st2] eqn:N2.
+      apply (IH items' s2 acc2 o2 ch1 st2 Hok' A2 Hf2 N2). }
+    destruct i as [c|c|k|d1 d2 d3]; cbn [sitem_bytes sitem_ok sitem_value map] in *.
+    + (* plain character *)
+      apply andb_true_iff in Hi. destruct Hi as [Hi Hcn]. apply andb_true_iff in Hi. destruct Hi as [Hi Hc92].
+      apply andb_true_iff in Hi. destruct Hi as [Hcb Hcq].
+      assert (Hn : is_nl c = false) by (destruct (is_nl c); auto; discriminate).
+      cbn [app] in Hat. destruct (next_plain _ _ _ _ Hat Hn Hcb) as (s1 & N1 & A1 & _).
+      rewrite N in N1. inversion N1; subst ch st1.
+      cbn [scan_string_loop].
+      replace (c =? q) with false by lia. rewrite is_nl_eq, Hn.
+      replace (c <? 0) with false by (unfold is_byte in Hcb; lia). cbn [orb].
+      replace (c =? 92) with false by lia.
+      destruct (CONT s1 (o + 1) (acc ++ [wc c]) A1 ltac:(simpl in Hf; lia)) as (st' & E & A').
+      exists st'. rewrite E. split.
+      * f_equal. rewrite wc_byte by exact Hcb. rewrite <- app_assoc. reflexivity.
+      * cbn [flat_map sitem_bytes]. at_exact A'. len_norm. lia.
+    + (* backslash + letter *)
+      destruct (esc_value c) as [v|] eqn:Ev; [|discriminate].
+      destruct (esc_value_class _ _ Ev) as [Hcn Hcb].
+      cbn [app] in Hat.
+      destruct (next_plain _ _ _ _ Hat ltac:(reflexivity) ltac:(reflexivity)) as (s1 & N1 & A1 & _).
+      rewrite N in N1. inversion N1; subst ch st1.
+      destruct (next_plain _ _ _ _ A1 Hcn Hcb) as (s2 & N2 & A2 & _).
+      cbn [scan_string_loop].
+      replace (92 =? q) with false by lia. cbn [Z.eqb Z.ltb Pos.eqb orb Z.compare].
+      rewrite (scan_escape_letter s1 c v s2 Ev N2).
+      destruct (CONT s2 (o + 1 + 1) (acc ++ [v]) A2 ltac:(simpl in Hf; lia)) as (st' & E & A').
+      exists st'. rewrite E. split.
+      * f_equal. rewrite <- app_assoc. reflexivity.
+      * cbn [flat_map sitem_bytes]. at_exact A'. len_norm. lia.
+    + (* backslash + line end *)
+      cbn [app] in Hat.
+      destruct (next_plain _ _ _ _ Hat ltac:(reflexivity) ltac:(reflexivity)) as (s1 & N1 & A1 & _).
+      rewrite N in N1. inversion N1; subst ch st1.
+      destruct (next_nl_bytes _ _ _ _ A1 Hhd) as (s2 & N2 & A2).
+      cbn [scan_string_loop].
+      replace (92 =? q) with false by lia. cbn [Z.eqb Z.ltb Pos.eqb orb Z.compare].
+      assert (Ee : scan_escape s1 = ([10], s2)) by (unfold scan_escape; rewrite N2; reflexivity).
+      rewrite Ee.
+      destruct (CONT s2 (o + 1 + len (nl_bytes k)) (acc ++ [10]) A2
+                  ltac:(simpl in Hf; rewrite app_length in Hf; destruct k; simpl in Hf; lia)) as (st' & E & A').
+      exists st'. rewrite E. split.
+      * f_equal. rewrite <- app_assoc. reflexivity.
+      * cbn [flat_map sitem_bytes]. at_exact A'. len_norm. lia.
+    + (* decimal escape *)
+      apply andb_true_iff in Hi. destruct Hi as [Hi Hv]. apply andb_true_iff in Hi. destruct Hi as [Hi H3].
+      apply andb_true_iff in Hi. destruct Hi as [H1 H2].
+      cbn [app] in Hat.
+      destruct (next_plain _ _ _ _ Hat ltac:(reflexivity) ltac:(reflexivity)) as (s1 & N1 & A1 & _).
+      rewrite N in N1. inversion N1; subst ch st1.
+      destruct (scan_escape_dec s1 d1 d2 d3 _ _ H1 H2 H3 ltac:(lia) A1) as (s4 & Ee & A4).
+      cbn [scan_string_loop].
+      replace (92 =? q) with false by lia. cbn [Z.eqb Z.ltb Pos.eqb orb Z.compare].
+      rewrite Ee.
+      destruct (CONT s4 (o + 1 + 3) (acc ++ [(d1 * 10 + d2) * 10 + d3]) A4 ltac:(simpl in Hf; lia)) as (st' & E & A').
+      exists st'. rewrite E. split.
+      * f_equal. rewrite <- app_assoc. reflexivity.
+      * cbn [flat_map sitem_bytes]. at_exact A'. len_norm. lia.
+Qed.
+
+Lemma string_tok_ok q items tail :
+  ((q =? 34) || (q =? 39)) = true -> forallb (sitem_ok q) items = true -> tok_ok (LxString q items) tail.
+Proof.
+  intros Hq Hok fuel redo stX o Hf Hat. cbn [lexeme_bytes] in *.
+  assert (Hq' : q = 34 \/ q = 39) by lia.
+  rewrite <- app_comm_cons, <- app_assoc in Hat, Hf. cbn [app] in Hat, Hf.
+  assert (Hqb : is_nl q = false /\ byteb q = true) by (destruct Hq'; subst; split; reflexivity).
+  destruct (next_plain _ _ _ _ Hat (proj1 Hqb) (proj2 Hqb)) as (s1 & N & A & _).
+  exists q, s1.
+  destruct (next s1) as [ch st2] eqn:N2.
+  destruct (string_run fuel q tail Hq' items s1 [] (o + 1) ch st2 Hok A ltac:(simpl in Hf; lia) N2)
+    as (st' & E & A').
+  exists st'. split; auto. split.
+  - assert (Eo : off s1 - 1 = o) by (destruct A as [_ A2]; lia).
+    unfold scan_tok. cbv zeta. unfold scan_string. rewrite N2, E, Eo.
+    destruct Hq'; subst q; reflexivity.
+  - at_exact A'. len_norm. lia.
+Qed.
+
+(* ---------- long strings ---------- *)
+
+Lemma scan_tok_bracket fuel redo st1 :
+  (peek st1 =? 91) || (peek st1 =? 61) = true ->
+  scan_tok fuel redo 91 st1 =
+  (let '(c, st2) := next st1 in
+   lift_tok (scan_multiline fuel c st2) (fun s st3 => STok (mkTok TString s (line st1) (off st1 - 1)) st3)).
+Proof. intros H. unfold scan_tok. cbv zeta. rewrite H. reflexivity. Qed.
+
+Lemma long_tok_ok lvl body tail :
+  is_bytes body = true -> ml_body_ok lvl body = true -> tok_ok (LxLong lvl body) tail.
+Proof.
+  intros Hb Hok fuel redo stX o Hf Hat. cbn [lexeme_bytes] in *.
+  assert (Hnc : noclose lvl body).
+  { unfold noclose. unfold ml_body_ok in Hok. destruct (occurs_before _ _ _); auto; discriminate. }
+  assert (EO : open_bracket lvl = 91 :: open_tail lvl) by reflexivity.
+  rewrite EO in Hat, Hf. rewrite <- !app_assoc in Hat, Hf. rewrite <- app_comm_cons in Hat, Hf.
+  destruct (next_plain _ _ _ _ Hat ltac:(reflexivity) ltac:(reflexivity)) as (s1 & N & A & _).
+  exists 91, s1.
+  assert (Hp : (peek s1 =? 91) || (peek s1 =? 61) = true).
+  { rewrite (peek_at_head _ _ _ A). unfold open_tail. destruct lvl; reflexivity. }
+  destruct (next s1) as [c st2] eqn:N2.
+  destruct (scan_multiline_run fuel lvl tail body s1 (o + 1) c st2 Hb Hnc A ltac:(unfold open_tail in *; lens) N2)
+    as (st' & E & A').
+  exists st'. split; auto. split.
+  - rewrite scan_tok_bracket by exact Hp. rewrite N2, E. cbn [lift_tok lexeme_type lexeme_text].
+    assert (Eo : off s1 - 1 = o) by (destruct A as [_ A2]; lia). rewrite Eo. reflexivity.
+  - rewrite EO. at_exact A'. len_norm. lia.
+Qed.
+
+(* ---------- operators and punctuation ---------- *)
+
+Lemma lookup_sym_in l ty b : lookup_sym l ty = Some b -> In (ty, b) l.
+Proof.
+  induction l as [|[t b'] l IH]; simpl; [discriminate|].
+  destruct (t =? ty) eqn:E; intros H.
+  - inversion H; subst. left. f_equal. lia.
+  - right. auto.
+Qed.
+
+Ltac sym_one s1 N A Eo Hp tail :=
+  eexists _, s1, s1; split; [exact N|]; split;
+  [unfold scan_tok; cbv zeta; rewrite Eo, ?Hp;
+   repeat match goal with
+          | |- context [head_or_eof tail =? ?k] => replace (head_or_eof tail =? k) with false by lia
+          end;
+   try replace (is_dec (head_or_eof tail)) with false by lia;
+   reflexivity
+  |at_exact A; len_norm; lia].
+
+Ltac sym_two s1 N A Eo Hp tail :=
+  let s2 := fresh "s2" in let N2 := fresh "N2" in let A2 := fresh "A2" in let Hp2 := fresh "Hp2" in
+  destruct (next_plain _ _ _ _ A ltac:(reflexivity) ltac:(reflexivity)) as (s2 & N2 & A2 & _);
+  pose proof (peek_at_head _ _ _ A2) as Hp2;
+  eexists _, s1, s2; split; [exact N|]; split;
+  [unfold scan_tok; cbv zeta; rewrite Eo, Hp; cbn [head_or_eof Z.eqb Pos.eqb is_dec Z.leb Z.compare Pos.compare Pos.compare_cont andb];
+   rewrite ?N2; cbn [snd]; rewrite ?Hp2;
+   repeat match goal with
+          | |- context [head_or_eof tail =? ?k] => replace (head_or_eof tail =? k) with false by lia
+          end;
+   reflexivity
+  |at_exact A2; len_norm; lia].
+
+Ltac sym_three s1 N A Eo Hp tail :=
+  let s2 := fresh "s2" in let N2 := fresh "N2" in let A2 := fresh "A2" in let Hp2 := fresh "Hp2" in
+  let s3 := fresh "s3" in let N3 := fresh "N3" in let A3 := fresh "A3" in
+  destruct (next_plain _ _ _ _ A ltac:(reflexivity) ltac:(reflexivity)) as (s2 & N2 & A2 & _);
+  pose proof (peek_at_head _ _ _ A2) as Hp2;
+  destruct (next_plain _ _ _ _ A2 ltac:(reflexivity) ltac:(reflexivity)) as (s3 & N3 & A3 & _);
+  eexists _, s1, s3; split; [exact N|]; split;
+  [unfold scan_tok; cbv zeta; rewrite Eo, Hp; cbn [head_or_eof Z.eqb Pos.eqb is_dec Z.leb Z.compare Pos.compare Pos.compare_cont andb];
+   rewrite N2, Hp2; cbn [head_or_eof Z.eqb Pos.eqb]; rewrite N3; reflexivity
+  |at_exact A3; len_norm; lia].
+
+Lemma sym_tok_ok ty tail :
+  lexeme_ok (LxSym ty) = true -> no_merge (LxSym ty) (head_or_eof tail) = true -> tok_ok (LxSym ty) tail.
+Proof.
+  intros Hok Hm fuel redo stX o Hf Hat.
+  cbn [lexeme_ok] in Hok. cbn [lexeme_bytes lexeme_type lexeme_text] in *. unfold sym_bytes in *.
+  destruct (lookup_sym sym_table ty) as [b|] eqn:El; [|discriminate].
+  apply lookup_sym_in in El. cbn [sym_table In] in El.
+  (* every entry of the table *)
+  repeat (destruct El as [El|El]; [inversion El; subst ty b; clear El|]); try contradiction;
+    cbn [app] in Hat;
+    destruct (next_plain _ _ _ _ Hat ltac:(reflexivity) ltac:(reflexivity)) as (s1 & N & A & _);
+    pose proof (peek_at_head _ _ _ A) as Hp;
+    assert (Eo : off s1 - 1 = o) by (destruct A as [_ A2]; lia);
+    cbn [no_merge Z.eqb Pos.eqb orb] in Hm;
+    unfold T2Comma, T3Comma, T2Colon, TEqeq, TNeq, TLte, TGte in *;
+    cbn [Z.eqb Pos.eqb orb] in Hm;
+    try solve [sym_one s1 N A Eo Hp tail]; try solve [sym_two s1 N A Eo Hp tail]; try solve [sym_three s1 N A Eo Hp tail].
+Qed.
